@@ -7,11 +7,19 @@ import (
 )
 
 // JoinTables draws 2-3 tables whose first column "k" is a join key from a tiny shared pool (same kind in all tables).
-func JoinTables(t *rapid.T, n int) []TableSpec {
+func JoinTables(t *rapid.T, n int) []TableSpec { return JoinTablesOpt(t, n, false) }
+
+// JoinTablesOpt: withTime additionally makes the key a Time column in a fifth of the draws (all tables CSV then; three
+// instants, each written in several zone spellings, so equal instants with different texts meet across the tables) and lets
+// the other columns of CSV tables be Time columns (TableOpts.Time).
+func JoinTablesOpt(t *rapid.T, n int, withTime bool) []TableSpec {
 	format := rapid.SampledFrom([]string{"csv", "json", "mixed"}).Draw(t, "jformat")
 	keyKind := rapid.SampledFrom([]string{"int", "str", "float"}).Draw(t, "keykind")
 	if format != "csv" && keyKind == "int" {
 		keyKind = "float"
+	}
+	if withTime && rapid.IntRange(0, 4).Draw(t, "timekey") == 0 {
+		format, keyKind = "csv", "time"
 	}
 	names := []string{"ta", "tb", "tc"}
 	var out []TableSpec
@@ -22,7 +30,7 @@ func JoinTables(t *rapid.T, n int) []TableSpec {
 			f = rapid.SampledFrom([]string{"csv", "json"}).Draw(t, fmt.Sprintf("fmt%d", i))
 		}
 		kinds := []string{"int", "float", "str", "bool"}
-		tbl := Table(t, TableOpts{Name: names[i], Format: f, MinRows: 1, MaxRows: 7, MaxCols: 3, KeyPool: true, NoLong: i != long, Kinds: kinds})
+		tbl := Table(t, TableOpts{Name: names[i], Format: f, MinRows: 1, MaxRows: 7, MaxCols: 3, KeyPool: true, NoLong: i != long, Kinds: kinds, Time: withTime})
 		// force the key kind
 		tbl.Cols[0].Kind = keyKind
 		for r := range tbl.Rows {
@@ -35,6 +43,8 @@ func JoinTables(t *rapid.T, n int) []TableSpec {
 				tbl.Rows[r][0] = Int(int64(rapid.IntRange(1, 3).Draw(t, label)))
 			case "float":
 				tbl.Rows[r][0] = FromFloat(float64(rapid.IntRange(1, 3).Draw(t, label)))
+			case "time":
+				tbl.Rows[r][0] = timeCell(t, timeKeyPoolSec, label)
 			default:
 				tbl.Rows[r][0] = Str(rapid.SampledFrom([]string{"x", "y", "z"}).Draw(t, label))
 			}
@@ -177,10 +187,13 @@ func aggItem(t *rapid.T, scope []ScopeCol, o ExprOpts, alias, label string) Item
 	}
 	var kinds []string
 	switch name {
-	case "sum", "avg", "min", "max":
+	case "sum", "avg", "min":
 		kinds = []string{"int", "float"}
+	case "max":
+		// octosql has max over Time but no min, sum or avg over Time
+		kinds = []string{"int", "float", "time"}
 	default:
-		kinds = []string{"int", "float", "str", "bool"}
+		kinds = []string{"int", "float", "str", "bool", "time"}
 	}
 	var avail []string
 	for _, k := range kinds {
@@ -205,8 +218,9 @@ func aggItem(t *rapid.T, scope []ScopeCol, o ExprOpts, alias, label string) Item
 	return it
 }
 
-// GroupQuery draws SELECT keys..., aggs... FROM tbl [WHERE] GROUP BY keys, optionally wrapped by an outer WHERE
-// ("HAVING-like"). alias = table alias.
+// GroupQuery draws SELECT keys..., aggs... FROM tbl [WHERE] GROUP BY keys, optionally wrapped by an outer query: an outer
+// WHERE over all inner columns ("HAVING-like"), or a projection of a subset of the inner columns that leaves >= 2 of the
+// inner aggregates unused. alias = table alias.
 func GroupQuery(t *rapid.T, tbl TableSpec, o GroupOpts, label string) Q {
 	scope := ScopeOfTable(tbl, "t")
 	q := Q{From: Src{Kind: "table", Table: tbl.File(), Alias: "t"}, Grouped: true}
@@ -234,10 +248,20 @@ func GroupQuery(t *rapid.T, tbl TableSpec, o GroupOpts, label string) Q {
 		w := Expr(t, scope, "bool", 1, o.Expr, label+"w")
 		q.Where = &w
 	}
-	if rapid.IntRange(0, 2).Draw(t, label+"having") != 0 {
+	// 0,1: the grouping query itself; 2: HAVING-like (outer WHERE, every inner column projected); 3: the outer query
+	// projects only a subset of the inner columns and leaves two or more aggregates unused (the optimiser then deletes
+	// the unused aggregates from the inner GROUP BY; the remaining ones must keep their values)
+	wrap := rapid.IntRange(0, 3).Draw(t, label+"having")
+	if wrap < 2 {
 		return q
 	}
-	// HAVING-like: an outer query filtering on an aggregate / key output
+	if wrap == 3 {
+		// at least three aggregates, so that two can be unused while one is still used (or all of them unused)
+		for na < 3 || (na < 5 && rapid.IntRange(0, 2).Draw(t, fmt.Sprintf("%smore%d", label, na)) == 0) {
+			q.Items = append(q.Items, aggItem(t, scope, o.Expr, fmt.Sprintf("g%d", na), fmt.Sprintf("%sa%d", label, na)))
+			na++
+		}
+	}
 	inner := q
 	var oscope []ScopeCol
 	for _, it := range inner.Items {
@@ -253,16 +277,47 @@ func GroupQuery(t *rapid.T, tbl TableSpec, o GroupOpts, label string) Q {
 		oscope = append(oscope, ScopeCol{Ref: "h." + it.Alias, Kind: k, Nullable: true})
 	}
 	outer := Q{From: Src{Kind: "sub", Sub: &inner, Alias: "h"}}
+	keep := make([]bool, len(oscope))
+	for i := range keep {
+		keep[i] = true
+	}
+	if wrap == 3 {
+		var aggIdx []int
+		for i, it := range inner.Items {
+			if it.Agg != "" {
+				aggIdx = append(aggIdx, i)
+			} else if rapid.IntRange(0, 3).Draw(t, fmt.Sprintf("%sdropk%d", label, i)) == 0 {
+				keep[i] = false
+			}
+		}
+		perm := rapid.Permutation(aggIdx).Draw(t, label+"dropperm")
+		ndrop := rapid.IntRange(2, len(aggIdx)).Draw(t, label+"ndrop")
+		for _, i := range perm[:ndrop] {
+			keep[i] = false
+		}
+		any := false
+		for _, k := range keep {
+			any = any || k
+		}
+		if !any {
+			keep[0] = true // every aggregate unused and no key kept: keep the first column (a key if there is one)
+		}
+	}
 	var filterable []ScopeCol
-	for _, c := range oscope {
-		if c.Kind != "list" {
+	for i, c := range oscope {
+		if c.Kind != "list" && keep[i] {
 			filterable = append(filterable, c)
 		}
 	}
-	w := Expr(t, filterable, "bool", 1, o.Expr, label+"hw")
-	outer.Where = &w
+	// the outer WHERE only reads columns the outer query projects, so the dropped aggregates really are unused
+	if len(filterable) > 0 && (wrap == 2 || rapid.Bool().Draw(t, label+"hwhere")) {
+		w := Expr(t, filterable, "bool", 1, o.Expr, label+"hw")
+		outer.Where = &w
+	}
 	for i, c := range oscope {
-		outer.Items = append(outer.Items, Item{E: E{Op: "col", Kind: c.Kind, Col: c.Ref}, Alias: fmt.Sprintf("h%d", i)})
+		if keep[i] {
+			outer.Items = append(outer.Items, Item{E: E{Op: "col", Kind: c.Kind, Col: c.Ref}, Alias: fmt.Sprintf("h%d", i)})
+		}
 	}
 	return outer
 }
